@@ -29,7 +29,7 @@ func calleeNames(f *ssa.Function) map[string]int {
 }
 
 func C19(ctx *core.Ctx, r *core.Report) {
-	r.Explanation = "Agreement between the XML writers and the XML reader, decided structurally: the writer names an element by the schema identifier and the namespace of the node's original module, and the reader matches on exactly those two accessors; leaf text of string types is handed to the value constructor as written (no trimming or case mapping on that data flow); list and leaf-list reading keeps scanning the siblings to the end so entries may be interleaved; every value kind reaches the element text through one of the writer's cases; leaf errors of both writers are returned; a fragment has exactly one root element. Escaping is delegated to the patched encoding/xml (trusted). Not decided: inverse-ness for any particular tree."
+	r.Explanation = "Agreement between the XML writers and the XML reader, decided structurally: the writer names an element by the schema identifier and the namespace of the node's original module, and the reader matches on exactly those two accessors; leaf text of string types is handed to the value constructor as written (no trimming or case mapping on that data flow); list and leaf-list reading keeps scanning the siblings to the end so entries may be interleaved; every value kind reaches the element text through one of the writer's cases; leaf errors of both writers are returned; a fragment has exactly one root element. Escaping is delegated to the patched encoding/xml (trusted). Leaf text reaches the output only through the XML encoder; the list node handed out by XmlNode.Child holds exactly the matched elements (never a span of the parent's children); floats are written in shortest exact form; WriteXMLDoc and the writers use OriginalModule. Not decided: inverse-ness for any particular tree."
 	// 1. name / namespace symmetry
 	find := ctx.Method("nodeutil", "XmlNode", "Find")
 	xmlName := ctx.Fn("nodeutil", "XmlName")
@@ -217,7 +217,7 @@ func storedToCaptured(v ssa.Value) bool {
 }
 
 func C04(ctx *core.Ctx, r *core.Report) {
-	r.Explanation = "Structural conditions of faithful export: every value Format the type compiler can assign is handled by the reader's value constructor (node.NewValue or val.Conv) rather than falling to the generic error; a schema default is materialised only where HasDefault() was tested on the same leaf; every loop that re-issues a list request advances the row on each iteration (so each entry is visited once). The writer-side value table and bracket pairing are decided under C15. Not decided: round-trip equality for any value, visiting order, that each node is visited exactly once."
+	r.Explanation = "Structural conditions of faithful export: every value Format the type compiler can assign is handled by the reader's value constructor (node.NewValue or val.Conv) rather than falling to the generic error; a schema default is materialised only where HasDefault() was tested on the same leaf; every loop that re-issues a list request advances the row on each iteration (so each entry is visited once). The writer-side value table and bracket pairing are decided under C15. Numbers are written as the shortest text that reads back as the same float64 (FormatFloat precision -1, 64 bits) and the JSON reader/writer qualify a data definition with its OriginalModule. Not decided: round-trip equality for any value, visiting order, that each node is visited exactly once."
 	c04ReaderExhaustive(ctx, r)
 	c04DefaultSites(ctx, r)
 	c04RowProtocol(ctx, r)
